@@ -30,6 +30,9 @@ import ast
 import os
 import sys
 
+sys.path.insert(0, os.path.dirname(os.path.abspath(__file__)))
+import gen_arith as GA  # noqa: E402  (the expression translator, used as a library)
+
 REPO = os.environ.get("VERIF_REPO", "/repo")
 OUT = sys.argv[1]
 
@@ -309,6 +312,36 @@ inductive Stmt where
 '''
 
 
+def quantile_index(f):
+    """the index expression of `threshold_from_link_density`, found *structurally* in the normalised
+    body — `<v> = <sorted>[<expr>]` where `<sorted>` is the local `.sort()` was called on — and
+    translated by gen_arith's expression translator (round 4: independent of the names of the
+    locals; `len(<sorted>)` becomes the parameter `len_sorted`)"""
+    body = [st for st in normalise(f) if not is_noise(st)]
+    srt = [st.value.func.value.id for st in body
+           if isinstance(st, ast.Expr) and isinstance(st.value, ast.Call)
+           and isinstance(st.value.func, ast.Attribute) and st.value.func.attr == "sort"
+           and isinstance(st.value.func.value, ast.Name) and not st.value.args]
+    if len(srt) != 1:
+        return "-- UNTRANSLATABLE thrIndex: no unique `<local>.sort()` statement\n"
+    cands = [st.value.slice for st in body
+             if isinstance(st, ast.Assign) and isinstance(st.value, ast.Subscript)
+             and isinstance(st.value.value, ast.Name) and st.value.value.id == srt[0]]
+    if len(cands) != 1:
+        return "-- UNTRANSLATABLE thrIndex: no unique `<v> = <sorted>[<expr>]` statement\n"
+    item = {"params": [["link_density", "Rat"], ["len_sorted", "Int"]],
+            "rename": {"len_" + srt[0]: "len_sorted"}}
+    try:
+        text, ty = GA.Tr(item).tr(cands[0])
+    except GA.Untranslatable as e:
+        return f"-- UNTRANSLATABLE thrIndex: {e}\n"
+    if ty != "Int":
+        return f"-- UNTRANSLATABLE thrIndex: expression is {ty}\n"
+    return ("/-- the index into the sorted similarities in `ClimateNetwork.threshold_from_link_density`: `"
+            + ast.unparse(cands[0]).replace(srt[0], "sorted") + "` -/\n"
+            f"def thrIndex (link_density : Rat) (len_sorted : Int) : Int :=\n  {text}\n")
+
+
 def main():
     base = os.path.join(REPO, "src/pyunicorn/climate")
     cn = ast.parse(open(os.path.join(base, "climate_network.py")).read())
@@ -333,6 +366,7 @@ def main():
          script(normalise(method(cn, C, "_regenerate_network"))))
     emit("thresholdFromLinkDensity", f"{C}.threshold_from_link_density",
          script(normalise(method(cn, C, "threshold_from_link_density"))))
+    defs.append(quantile_index(method(cn, C, "threshold_from_link_density")))
     emit("linkDensityFunction", f"{C}.link_density_function",
          script(normalise(method(cn, C, "link_density_function"))))
     H = "HilbertClimateNetwork"
